@@ -25,7 +25,7 @@ func init() { register("C20", func() core.Check { return &c20{} }) }
 
 func (*c20) Level() string { return "exploration" }
 func (*c20) Rule() string {
-	return "case = generated portfolio journal (deposits/withdrawals against non-A/L accounts, trades between portfolio accounts, price moves, liabilities, several flows per day, portfolios that start empty, annotated and accrued dividends, period ends on days without any directive) x valuation commodity x window/interval/--last x account/commodity filters x universe files x -m mappings; weights oracle = each commodity's weight equals its share of the A/L totals that `knut balance -v V --csv -s . --close=false` reports for that date (2e-6), group rows equal the sum of their members, top level sums to 1, the row tree is the universe's classification; returns oracle = exactly one line per reference-calendar period labelled with the period end, 0.0% for periods with constant prices and only external flows, V_end/V_start-1 (to the printed 0.1%) for periods without external flows - bookings annotated @performance(targets) count as performance, not as flows, also when @accrue spreads them over months (own expansion: equal parts at the period ends of the accrual window, total a multiple of the part); periods holding an annotation with an empty target list are not judged; non-trivial = weights report with >=2 commodities and >=2 dates, returns report with >=3 periods of which >=1 has no directive on its end date; distinct = hash of journal + argv"
+	return "case = generated portfolio journal (deposits/withdrawals against non-A/L accounts, trades between portfolio accounts, price moves, liabilities, several flows per day, portfolios that start empty or are sold off completely on some day, annotated and accrued dividends, period ends on days without any directive) x valuation commodity x window/interval/--last x account/commodity filters x universe files x -m mappings; weights oracle = each commodity's weight equals its share of the A/L totals that `knut balance -v V --csv -s . --close=false` reports for that date (2e-6), group rows equal the sum of their members, top level sums to 1, the row tree is the universe's classification; returns oracle = exactly one line per reference-calendar period labelled with the period end, 0.0% for periods with constant prices and only external flows, V_end/V_start-1 (to the printed 0.1%) for periods without external flows - bookings annotated @performance(targets) count as performance, not as flows, also when @accrue spreads them over months (own expansion: equal parts at the period ends of the accrual window, total a multiple of the part); periods holding an annotation with an empty target list are not judged; non-trivial = weights report with >=2 commodities and >=2 dates, returns report with >=3 periods of which >=1 has no directive on its end date; distinct = hash of journal + argv"
 }
 
 func (k *c20) Setup(c *core.Ctx) (int, error) { return c.N(2000, 40000), nil }
@@ -79,6 +79,54 @@ func c20Gen(r *rand.Rand, constantPrices bool) c20Journal {
 			continue
 		}
 		switch {
+		case di > lead+1 && r.Intn(12) == 0:
+			// the whole portfolio is sold off and paid out: nothing is held at the end of the day
+			type pk struct{ acc, com string }
+			pos := map[pk]*big.Rat{}
+			var keys []pk
+			addPos := func(acc, com, qty string, sign int) {
+				if !strings.HasPrefix(acc, "Assets") && !strings.HasPrefix(acc, "Liabilities") {
+					return
+				}
+				k := pk{acc, com}
+				if pos[k] == nil {
+					pos[k] = new(big.Rat)
+					keys = append(keys, k)
+				}
+				q := gen.Rat(qty)
+				if sign < 0 {
+					q.Neg(q)
+				}
+				pos[k].Add(pos[k], q)
+			}
+			for _, src := range [][]gen.Dir{j.Dirs, expanded} {
+				for _, x := range src {
+					if x.Kind != gen.KTxn || x.Accrual != nil || x.Date > d {
+						continue
+					}
+					for _, b := range x.Bookings {
+						addPos(b.Credit, b.Com, b.Qty, -1)
+						addPos(b.Debit, b.Com, b.Qty, +1)
+					}
+				}
+			}
+			var bks []gen.Booking
+			for _, k := range keys {
+				q := pos[k]
+				switch q.Sign() {
+				case 1:
+					bks = append(bks, gen.Booking{Credit: k.acc, Debit: "Equity:Opening", Qty: gen.DecString(q), Com: k.com})
+				case -1:
+					bks = append(bks, gen.Booking{Credit: "Equity:Opening", Debit: k.acc, Qty: gen.DecString(new(big.Rat).Neg(q)), Com: k.com})
+				}
+			}
+			if len(bks) == 0 {
+				continue
+			}
+			j.Dirs = append(j.Dirs, gen.Dir{Kind: gen.KTxn, Date: d, Desc: "liquidation", Bookings: bks})
+			for c := range held {
+				held[c] = false
+			}
 		case di == lead || r.Intn(4) == 0:
 			// external deposit (or withdrawal of a small amount once something is held)
 			cm := coms[r.Intn(len(coms))]
@@ -755,6 +803,35 @@ func (k *c20) returns(c *core.Ctx, i int, dir string, w c20Journal, r *rand.Rand
 			// external flows only, prices unchanged
 			if math.Abs(vStart) < 1e-9 && vEnd < 0 {
 				continue // degenerate: the portfolio goes negative from nothing
+			}
+			// degenerate as well: a flow on a day that starts with nothing (or less than nothing)
+			// held, unless it is a deposit into an empty portfolio - a return on no capital
+			degenerate := false
+			netByDay := map[cal.Day]float64{}
+			for _, po := range posts {
+				if po.Date < p.Start || po.Date > p.End || !ref.IsAL(po.Account) || ref.IsAL(po.Other) || internal[po.Txn] {
+					continue
+				}
+				pr, _, ok := pb.At(po.Date, po.Com)
+				if !ok {
+					degenerate = true
+					break
+				}
+				f, _ := new(big.Rat).Mul(po.Qty, pr).Float64()
+				netByDay[po.Date] += f
+			}
+			for day, net := range netByDay {
+				v0 := 0.0
+				if prev, ok := pb.PrevDay(day); ok {
+					v0, _ = value(prev)
+				}
+				if v0 < -1e-9 || (math.Abs(v0) <= 1e-9 && net <= 0) {
+					degenerate = true
+				}
+			}
+			if degenerate {
+				c.Count("returns_periods_not_judged_no_capital", 1)
+				continue
 			}
 			if math.IsNaN(g.val) || math.Abs(g.val) > 0.0501 {
 				fail("returns-flow-only-period", fmt.Sprintf("period %s..%s has only external flows at unchanged prices (value %.4f -> %.4f) but the return is %s%%", p.Start, p.End, vStart, vEnd, g.raw))
